@@ -362,23 +362,26 @@ func inClass(gt *gType) bool {
 			}
 			params[f.param] = true
 		}
-		if f.omit && (f.inline || (f.isArray() && f.typ.Len() > 0)) {
+		// byte arrays, also behind pointers (the Coq class looks at the kind of the pointed-to type: Class.field_shape_ok,
+		// C20PBase.arrays_sized)
+		isArr := bt.Kind() == reflect.Array
+		if f.omit && (f.inline || (isArr && bt.Len() > 0)) {
 			return false
 		}
-		if f.isArray() && f.typ.Len() == 0 {
+		if isArr && bt.Len() == 0 {
 			return false
 		}
 		if f.length == 0 {
 			return false
 		}
-		if f.length > 0 && f.isArray() && f.length != f.typ.Len() {
+		if f.length > 0 && isArr && f.length != bt.Len() {
 			return false
 		}
 		if f.length > 0 && (isIntLike(f.typ) || bt == reflect.TypeOf(Hex16(0))) {
 			return false
 		}
 		if f.inline {
-			if f.length <= 0 && !f.isArray() {
+			if f.length <= 0 && !isArr {
 				return false
 			}
 			if f.group || f.param != "" || i+1 >= len(fs) {
